@@ -24,9 +24,21 @@ def run(ctx):
     repeat = 25 if ctx.tier == "quick" else 200
     maxperm = 3 if ctx.tier == "quick" else 4
     base = []
-    for i in range(n):
-        kind = rng.choice([None, None] + modgen.CONFLICTS)
+    kinds = [None, None] + modgen.CONFLICTS
+    # the kinds with two errors for one file, where a tie in an ordering shows, more often than the others
+    # (and two entries of the list under one file name, where keying by name shows)
+    tie_prone = ["case-twin-conditions", "case-twin-relations", "same-name-files-ok"]
+    n_tie = 12 if ctx.tier == "quick" else 150
+    for i in range(n + n_tie):
+        # every kind of the catalogue three times before anything is left to chance (a kind added to the catalogue must not
+        # push another one out of a run of 60 sets)
+        kind = kinds[i % len(kinds)] if i < 3 * len(kinds) else (rng.choice(kinds) if i < n else tie_prone[i % 3])
         files, inj = modgen.gen_set(rng, kind)
+        if kind and inj is None:
+            for _ in range(4):      # no site for this kind in the set drawn: draw again
+                files, inj = modgen.gen_set(rng, kind)
+                if inj is not None:
+                    break
         # several simultaneous conflicts
         if rng.random() < 0.35:
             for _ in range(rng.choice([1, 2])):
